@@ -56,6 +56,10 @@ def run(ctx: Ctx, rep: Report) -> None:
     from ..rules.rangedom import rule_rangedom
     rule_rangedom(ctx, rep, ('bqskit/qis/',), 3)
     perm_sort(ctx, rep)
+    # order / tautology rules of the utility layer
+    from ..rules.utilrules import rule_utils
+    rule_utils(ctx, rep, ('bqskit/qis/', 'bqskit/utils/math.py',
+                          'bqskit/ir/location.py', 'bqskit/ir/region.py'))
 
 
 def perm_sort(ctx: Ctx, rep: Report) -> None:
